@@ -125,7 +125,7 @@ def run(rep, tier, seed):
         case = engine.Case(t, v)
         rep.case('corpus ' + case.canon)
         check_case(rep, drv, case, [mode], rng)
-    for case in engine.gen_cases(rng, n, max_depth=2):
+    for case in engine.gen_cases(rng, n, max_depth=2, allow_any=True):
         if not engine.representable(case):
             continue
         rep.case(case.canon, nontrivial=gen.nontrivial(case.t),
